@@ -36,6 +36,7 @@ type Float struct {
 	V float64
 	W uint8 // 32 or 64
 	U bool  // value unknown (parsed from symbolic digits): any use is inconclusive
+	T *Term // symbolic value (an FP-sorted term, see fp.go); U is set as well
 }
 
 // Str: sequence of bytes (Int W=8), possibly with rope segments (wDec / wOpaque).
